@@ -17,8 +17,10 @@ def main():
         from pgmpy.global_vars import config
 
         config.set_backend("torch", dtype=torch.float32 if dt == "float32" else torch.float64)
+    import mc.stats
     from mc.stats import Stats
 
+    mc.stats.CURRENT_PID = pid
     mod = load(pid)
     total = Stats()
     for g in json.load(sys.stdin):
